@@ -190,3 +190,87 @@ Lemma refuted_bare_cr :
      | None => False
      end.
 Proof. vm_compute. auto. Qed.
+
+(** ---- BODYSTRUCTURE string fields ---- *)
+
+Lemma qs_body_escape s : clean s = true -> qs_body (escape s ++ [DQ]) = true.
+Proof.
+  induction s as [|c s IH]; intros H; [reflexivity|].
+  apply clean_cons in H as (Hcr & Hlf & Hs).
+  rewrite escape_cons, <- app_assoc. unfold esc1.
+  destruct (Ascii.eqb_spec c BSL) as [->|Hb].
+  - cbn [app qs_body]. change (Ascii.eqb BSL DQ) with false. change (Ascii.eqb BSL BSL) with true.
+    cbn [orb andb]. cbn iota. now apply IH.
+  - destruct (Ascii.eqb_spec c DQ) as [->|Hq].
+    + cbn [app qs_body]. change (Ascii.eqb BSL DQ) with false. change (Ascii.eqb BSL BSL) with true.
+      change (Ascii.eqb DQ DQ) with true. cbn [orb andb]. cbn iota. now apply IH.
+    + cbn [app qs_body]. apply Ascii.eqb_neq in Hb, Hq. rewrite Hq, Hb, Hcr, Hlf. cbn [orb]. cbn iota.
+      now apply IH.
+Qed.
+
+Lemma nstring_quote_or_nil s : clean s = true -> nstring_ok (quote_or_nil s) = true.
+Proof.
+  intros H. destruct s as [|c s]; [reflexivity|].
+  unfold nstring_ok, quote_or_nil, quoted_strict. change (Ascii.eqb DQ DQ) with true. cbn [andb].
+  now rewrite qs_body_escape, orb_true_r.
+Qed.
+
+Lemma quoted_strict_quote s : s <> [] -> clean s = true -> quoted_strict (quote_or_nil s) = true.
+Proof.
+  intros Hne H. destruct s as [|c s]; [congruence|].
+  unfold quote_or_nil, quoted_strict. change (Ascii.eqb DQ DQ) with true. cbn [andb].
+  now apply qs_body_escape.
+Qed.
+
+Lemma clean_to_upper s : clean s = true -> clean (to_upper s) = true.
+Proof.
+  assert (K : forall c, negb (negb (Ascii.eqb c CR) && negb (Ascii.eqb c LF))
+                        || (negb (Ascii.eqb (upper_c c) CR) && negb (Ascii.eqb (upper_c c) LF)) = true).
+  { ascii_sweep (fun c => negb (negb (Ascii.eqb c CR) && negb (Ascii.eqb c LF))
+                          || (negb (Ascii.eqb (upper_c c) CR) && negb (Ascii.eqb (upper_c c) LF))). }
+  unfold clean, to_upper. induction s as [|c s IH]; intros H; [reflexivity|].
+  cbn [map forallb] in *. apply andb_true_iff in H as [Hc Hs].
+  specialize (K c). rewrite Hc in K. cbn [negb orb] in K. now rewrite K, IH.
+Qed.
+
+(** the fields BuildBodyStructure prints after the parameter list of a
+    single-part message: NIL / one quoted string each, then numbers and NIL *)
+Theorem single_tail_ok raw is_text :
+  clean (extract_header raw (S_ "Content-ID")) = true ->
+  clean (extract_header raw (S_ "Content-Description")) = true ->
+  clean (extract_header raw (S_ "Content-Transfer-Encoding")) = true ->
+  Forall (fun t => tokb t = true) (single_tail raw is_text)
+  /\ Forall (fun t => nstring_ok t = true) (firstn 3 (single_tail raw is_text))
+  /\ quoted_strict (nth 2 (single_tail raw is_text) []) = true.
+Proof.
+  intros Hi Hd He.
+  assert (Henc : clean (bs_encoding raw) = true).
+  { unfold bs_encoding. apply clean_to_upper.
+    destruct (extract_header raw (S_ "Content-Transfer-Encoding")); [reflexivity|exact He]. }
+  assert (Hne : bs_encoding raw <> []).
+  { unfold bs_encoding, to_upper. destruct (extract_header raw (S_ "Content-Transfer-Encoding")); discriminate. }
+  assert (Hnil : tokb NIL = true) by reflexivity.
+  unfold single_tail. split; [|split].
+  - destruct is_text; cbn [app];
+      repeat (apply Forall_cons; [first [ apply tokb_tokp, tokp_quote_or_nil; assumption
+                                        | apply tokb_tokp, tokp_dec | exact Hnil ]|]);
+      apply Forall_nil.
+  - cbn [firstn app]. repeat constructor; now apply nstring_quote_or_nil.
+  - cbn [nth app]. now apply quoted_strict_quote.
+Qed.
+
+(** the disposition field for a parsed type, and the defect for an unparsable one *)
+Lemma disp_list_strict t ps : t <> [] -> clean t = true ->
+  exists rest, disp_list (Some (t, ps)) = LP :: quote_or_nil (to_upper t) ++ rest
+               /\ quoted_strict (quote_or_nil (to_upper t)) = true.
+Proof.
+  intros Hne Hc. eexists. split; [reflexivity|].
+  apply quoted_strict_quote; [|now apply clean_to_upper].
+  destruct t; [congruence|discriminate].
+Qed.
+
+Lemma refuted_disposition_nil :
+  classify_disp (Some ([], [])) = Some disposition_nil
+  /\ disp_list (Some ([], [])) = S_ "(NIL NIL)"
+  /\ quoted_strict (S_ "NIL") = false.
+Proof. vm_compute. auto. Qed.
